@@ -142,7 +142,6 @@ Section Refuse.
   (* proved in Proofs/FloatArrayProofs.v *)
   Hypothesis HF_one : forall ct v, fct_ok ct = true -> ood_float ct v = true -> float_validate_one ct v <> None.
   Hypothesis HF_many : forall ct items, fct_ok ct = true ->
-    match items with x :: _ => is_nan_val x = false | [] => True end ->
     existsb (ood_float ct) items = true -> float_validate_many ct items <> None.
 
   Lemma elem_one_refuse : forall e v, elem_ok e = true -> ood_elem e v = true -> elem_validate_one e v <> None.
@@ -180,15 +179,14 @@ Section Refuse.
     - pose proof (elem_one_refuse e v He H). destruct (elem_validate_one e v); [discriminate|congruence].
   Qed.
 
-  Lemma elem_many_refuse : forall e v items, elem_ok e = true -> excl_e e v = true ->
+  Lemma elem_many_refuse : forall e v items, elem_ok e = true ->
     iter_items v = Some items -> (forall bs, v <> PBytes bs) \/ (forall r, e <> EByte r) ->
     existsb (ood_elem e) items = true -> elem_validate_many e v items <> None.
   Proof.
-    intros e v items He Hx Hi Hnb Hex. destruct e as [vid r|vid ct|r]; cbn [elem_validate_many elem_ok] in *.
+    intros e v items He Hi Hnb Hex. destruct e as [vid r|vid ct|r]; cbn [elem_validate_many elem_ok] in *.
     - apply irec_ok_range in He as [Hlo Hhi]. unfold int_validate_many.
       eapply int_many_refuse; eauto; try (intros; reflexivity).
-    - apply HF_many; auto. cbn [excl_e] in Hx. unfold head_not_nan in Hx. rewrite Hi in Hx.
-      destruct items; [exact I|]. now apply negb_true_iff in Hx.
+    - apply HF_many; auto.
     - unfold byte_irec_ok in He. assert (Hr : irec_ok r = true) by lia. apply irec_ok_range in Hr as [Hlo Hhi].
       unfold byte_validate_many.
       destruct v; try (destruct Hnb as [Hnb|Hnb]; [exfalso; eapply Hnb; reflexivity|exfalso; eapply Hnb; reflexivity]);
@@ -200,12 +198,12 @@ Section Refuse.
   Qed.
 
   (* slice / whole-array assignment of a sequence *)
-  Lemma arr_seq_refuse : forall e n off m a b c v, elem_ok e = true -> excl_e e v = true ->
+  Lemma arr_seq_refuse : forall e n off m a b c v, elem_ok e = true ->
     (forall bs, v <> PBytes bs) \/ (forall r, e <> EByte r) ->
     ood_seq (ood_elem e) n (KSlice a b c) v = true ->
     fst (arr_setitem true e n off m (KSlice a b c) v) <> None.
   Proof.
-    intros e n off m a b c v He Hx Hnb H. unfold ood_seq in H.
+    intros e n off m a b c v He Hnb H. unfold ood_seq in H.
     destruct (slice_len n (KSlice a b c)) as [len|] eqn:Es; [|discriminate].
     assert (Hconv : bytearray_conv e v = v).
     { destruct e; try reflexivity. destruct v; try reflexivity.
@@ -238,11 +236,11 @@ Section Refuse.
     ood_seq o n KAttr v = ood_seq o n (KSlice None None None) v.
   Proof. intros. unfold ood_seq. rewrite slice_len_attr. reflexivity. Qed.
 
-  Theorem set_refuse : forall f k m v, ftype_ok (f_ty f) = true -> excl (f_ty f) v = true ->
+  Theorem set_refuse : forall f k m v, ftype_ok (f_ty f) = true ->
     out_of_domain (f_ty f) k v = true -> fst (set true f k m v) <> None.
   Proof.
-    intros f k m v Hok Hx H. unfold set.
-    destruct (f_ty f) as [r|ct|r| |n|e n|cls size|cls esz n] eqn:Et; cbn [ftype_ok excl out_of_domain] in *.
+    intros f k m v Hok H. unfold set.
+    destruct (f_ty f) as [r|ct|r| |n|e n|cls size|cls esz n] eqn:Et; cbn [ftype_ok out_of_domain] in *.
     - destruct k; try discriminate. pose proof (int_one_refuse r v Hok H).
       destruct (int_validate_one r v); [discriminate|congruence].
     - destruct k; try discriminate. pose proof (HF_one ct v Hok H).
@@ -254,8 +252,7 @@ Section Refuse.
       pose proof (char_refuse v H1 H2). destruct (char_validate_one v); [discriminate|congruence].
     - destruct k; try discriminate. pose proof (string_refuse n v H).
       destruct (string_validate_one n v); [discriminate|congruence].
-    - assert (Hxe : excl_e e v = true) by (destruct e; auto).
-      destruct k as [|i|a b c].
+    - destruct k as [|i|a b c].
       + (* whole-array assignment *)
         destruct v; try discriminate H;
           try (rewrite ood_seq_attr in H; apply arr_seq_refuse; auto; left; intros; discriminate).
